@@ -22,6 +22,28 @@ def regionsK (ks : PKids α) (a : Aff α) (l d : Nat) (path : List (Aff α)) : L
   | .cons (some t) rest => regionsT t d rest.count (path ++ [halfspace a l]) ++ regionsK rest a (l+1) d path
 end
 
+mutual
+/-- reference stream of `polyhedra()` with skips: sub-trees of the items marked in `sk` are omitted; `k` is the
+    position of the next reported item -/
+def regionsSkipT (sk : Nat → Nat) (t : PT α) (d r : Nat) (path : List (Aff α)) (k : Nat) :
+    List (Item × List (Aff α)) × Nat :=
+  match t with
+  | .node i c ks =>
+    if sk k ≠ 0 then ([(⟨d, i, r⟩, path)], k+1)
+    else
+      let res := regionsSkipK sk ks c.aff 0 (d+1) path (k+1)
+      ((⟨d, i, r⟩, path) :: res.1, res.2)
+def regionsSkipK (sk : Nat → Nat) (ks : PKids α) (a : Aff α) (l d : Nat) (path : List (Aff α)) (k : Nat) :
+    List (Item × List (Aff α)) × Nat :=
+  match ks with
+  | .nil => ([], k)
+  | .cons none rest => regionsSkipK sk rest a (l+1) d path k
+  | .cons (some t) rest =>
+    let x := regionsSkipT sk t d rest.count (path ++ [halfspace a l]) k
+    let y := regionsSkipK sk rest a (l+1) d path x.2
+    (x.1 ++ y.1, y.2)
+end
+
 /-- the machine -/
 structure PGen (α : Type) where
   preds : List (Aff α)
